@@ -54,6 +54,13 @@ def code_fn(metric, partition, mode):
       ev = models.ModelEvaluator(model)
       (cid, res), = list(ev.evaluate_global_params({'P': P}, [(b'c0', bs)]))
       return res['m']
+    if mode == 'ModelEvaluator(per-client)':
+      ev = models.ModelEvaluator(model)
+      (cid, res), = list(ev.evaluate_per_client_params([(b'c0', bs, {'P': P})]))
+      return res['m']
+    if mode == 'evaluate_model(no mask feature)':     # batches without a mask feature: every row is real
+      nb = [{k: v for k, v in b.items() if k != '__mask__'} for b in bs]
+      return models.evaluate_model(model, {'P': P}, nb)['m']
     if mode == 'evaluate_batch':   # one batch, direct
       (b,) = bs
       return metrics.evaluate_batch(metric, b, P[b['idx']], b['__mask__']).result()
@@ -159,7 +166,7 @@ def run_metric(run, name, ctor, kind, info, N, C, T, partitions, timeout):
         ok, msg = replay_subprocess('C05', data)
         run.violation('%s:%s:empty' % (name.split('(')[0], mode), '%s via %s on an empty input: %s' % (name, mode, msg), data, ok)
       continue
-    ref = reference_result(name, info, kind, P, Y, Dm, Mk, C, T, ctx, rows, use_mask=(mode != 'merge_fold'), metric=metric)
+    ref = reference_result(name, info, kind, P, Y, Dm, Mk, C, T, ctx, rows, use_mask=(mode not in ('merge_fold', 'evaluate_model(no mask feature)')), metric=metric)
     goals = []
     if out.shape != ref.shape:
       goals.append(('shape', False))
@@ -167,7 +174,7 @@ def run_metric(run, name, ctor, kind, info, N, C, T, partitions, timeout):
       for idx in np.ndindex(*out.shape):
         goals.append(('result%s' % (list(idx),), sj.same(out[idx], ref[idx])))
         goals.append(('finite%s' % (list(idx),), sj.finite(out[idx])))
-        if mode != 'merge_fold':
+        if mode not in ('merge_fold', 'evaluate_model(no mask feature)'):
           nomask = sj.B_and(*[sj.B_not(Mk[i]) for i in rows]) if rows else True
           goals.append(('all-masked=>0%s' % (list(idx),),
                         z3.Implies(sj.zr(nomask), sj.zr(sj.B_and(sj.finite(out[idx]), sj.f_eq(out[idx], Fraction(0)))))))
@@ -259,7 +266,7 @@ def replay(data):
     return o
   rows = [i for idxs in partition for i in idxs]
   ref = reference_result(name, info, kind, obj(P, lambda v: Fraction(float(v))), obj(Y, int), obj(D, int), obj(Mk, bool),
-                         C, T, ctx, rows, use_mask=(mode != 'merge_fold'))
+                         C, T, ctx, rows, use_mask=(mode not in ('merge_fold', 'evaluate_model(no mask feature)')))
   msgs = []
   if data.get('empty'):
     bad = [float(v) for v in got.reshape(-1) if not (v == 0)]
@@ -297,11 +304,13 @@ def check(run):
     grid = [g for g in grid if g[3].get('k', 1) >= 1]
   if tier == 'quick':
     parts = [([[0, 1], [2]], 'evaluate_model'), ([[2], [], [1, 0]], 'evaluate_model'), ([[0, 1, 2]], 'ModelEvaluator'),
-             ([[1, 2, 0]], 'evaluate_batch'), ([[0, 1, 2]], 'merge_fold'), ([], 'evaluate_model')]
+             ([[1, 2, 0]], 'evaluate_batch'), ([[0, 1, 2]], 'merge_fold'), ([], 'evaluate_model'),
+             ([[0], [1, 2]], 'ModelEvaluator(per-client)'), ([[0, 1], [2]], 'evaluate_model(no mask feature)')]
   else:
     parts = [([[0, 1], [2, 3]], 'evaluate_model'), ([[3], [0, 1, 2]], 'evaluate_model'), ([[0, 1, 2, 3]], 'evaluate_model'),
              ([[2, 3], [], [1], [0]], 'evaluate_model'), ([[0], [1, 2, 3]], 'ModelEvaluator'), ([[0, 1, 2, 3]], 'ModelEvaluator'),
-             ([[3, 1, 2, 0]], 'evaluate_batch'), ([[0, 1, 2, 3]], 'merge_fold'), ([[2, 0, 1]], 'merge_fold'), ([], 'evaluate_model')]
+             ([[3, 1, 2, 0]], 'evaluate_batch'), ([[0, 1, 2, 3]], 'merge_fold'), ([[2, 0, 1]], 'merge_fold'), ([], 'evaluate_model'),
+             ([[0, 3], [1, 2]], 'ModelEvaluator(per-client)'), ([[0, 1], [2, 3]], 'evaluate_model(no mask feature)')]
   run.functions += ['fedjax.core.metrics.evaluate_batch/apply_mask/MeanStat/SumStat(new,merge,reduce,result)',
                     'fedjax.core.models.evaluate_model/_evaluate_model_step/ModelEvaluator', 'every Metric.evaluate_example/zero']
   run.trusted += ['z3', 'vf/symjx.py interpreter', 'first-principles metric references (checked against the code by C14)']
